@@ -47,6 +47,29 @@ end
 /-- the canonical XML tree a stanza tree stands for when placed where `inh` is the default namespace -/
 def canon (inh : Option Bytes) (t : Tree) : XNode := sortTree (canonRaw inh t)
 
+/-! ### the tree a rendering denotes, declaration by declaration
+
+`canonRawR par scope t` follows the RENDERING of `t` below a parent with attribute table `par` (`none`: a
+root): only the `xmlns` declarations that are actually written count; an elided one leaves the reader's
+scope as it is.  It coincides with `canonRaw scope t` whenever `scope` agrees with the elided declaration
+(`Lemmas/XmlParse.lean`, `canonRawR_eq`), which is always the case below the root. -/
+
+mutual
+def canonRawR (par : Option (Option HashTab)) (scope : Option Bytes) : Tree → XNode
+  | .tag name attrs ks =>
+    .elem (scopeOf scope (shownAttrs par attrs)) name (plainAttrs attrs)
+      (canonKidsRawR (some attrs) (scopeOf scope (shownAttrs par attrs)) ks)
+  | .text d _ => .text d
+  | .unknown _ => .text []
+def canonKidsRawR (par : Option (Option HashTab)) (scope : Option Bytes) : List Tree → List XNode
+  | [] => []
+  | k :: ks => consNode (canonRawR par scope k) (canonKidsRawR par scope ks)
+end
+
+/-- the canonical tree denoted by the rendering of `t` where the default namespace in scope is `scope` -/
+def canonR (par : Option (Option HashTab)) (scope : Option Bytes) (t : Tree) : XNode :=
+  sortTree (canonRawR par scope t)
+
 /-! ### the trees the property quantifies over -/
 
 /-- an (unprefixed) XML name in the sense of `Spec/Xml.lean` -/
@@ -78,11 +101,28 @@ def WfKids : List Tree → Prop
 end
 
 mutual
+/-- the rendering of the tree (below `par`, read in `scope`) never UN-declares the default namespace: no
+    element without namespace below an element that has one (`xmlns=""` below a namespaced ancestor) -/
+def NoUndecl (par : Option (Option HashTab)) (scope : Option Bytes) : Tree → Prop
+  | .tag _ attrs ks =>
+    (scopeOf scope (shownAttrs par attrs) = none → scope = none) ∧
+      NoUndeclKids (some attrs) (scopeOf scope (shownAttrs par attrs)) ks
+  | .text _ _ => True
+  | .unknown _ => True
+def NoUndeclKids (par : Option (Option HashTab)) (scope : Option Bytes) : List Tree → Prop
+  | [] => True
+  | k :: ks => NoUndecl par scope k ∧ NoUndeclKids par scope ks
+end
+
+/-- `_set_attributes(child, attrs); if (ns) xmpp_stanza_set_ns(child, ns);` -/
+def attrsWithNs (attrs : List Entry) (ns : Option Bytes) : List Entry :=
+  attrs ++ (match ns with | some n => [(xmlnsKey, n)] | none => [])
+
+mutual
 /-- what parser_expat.c builds for one element -/
 def ofXNode : XNode → Tree
   | .text s => .text s []
-  | .elem ns name attrs kids =>
-    mkTag name (attrs ++ (match ns with | some n => [(xmlnsKey, n)] | none => [])) (ofXNodes kids)
+  | .elem ns name attrs kids => mkTag name (attrsWithNs attrs ns) (ofXNodes kids)
 def ofXNodes : List XNode → List Tree
   | [] => []
   | k :: ks => ofXNode k :: ofXNodes ks
